@@ -114,6 +114,10 @@ pub enum Class {
     /// 0 unless a program stored there since the last successful set_program. One variant overwrites
     /// the byte after reading it.
     MetaRead,
+    /// fills all 64 slots of the 512-byte stack, then does things an engine might need scratch
+    /// memory for (a helper call that overwrites every caller-saved register, divisions, byte
+    /// swaps, packet loads), then folds all 64 slots into the result: the stack is the program's alone
+    StackFill,
 }
 
 impl Class {
@@ -128,6 +132,7 @@ impl Class {
             Class::R1Plain => "R1Plain",
             Class::MetaStore => "MetaStore",
             Class::MetaRead => "MetaRead",
+            Class::StackFill => "StackFill",
             Class::ProbeR1 => "ProbeR1",
             Class::ProbeSlotData => "ProbeSlotData",
             Class::ProbeSlotLen => "ProbeSlotLen",
@@ -179,6 +184,7 @@ impl Class {
             Class::ProbeCallThenPkt,
             Class::MetaStore,
             Class::MetaRead,
+            Class::StackFill,
         ] {
             if c.name() == s {
                 return Some(c);
@@ -363,6 +369,64 @@ pub fn gen_fixed_beyond_end(tag: u8, doff: usize, eoff: usize, beyond: usize) ->
     let mut p = mk(b.v, tag, Class::FixedBeyondEnd);
     p.offsets = Some((doff, eoff));
     p.p0 = at as i64;
+    p
+}
+
+/// Expected result: fold (h = h * 31 + slot) over the 64 slots, lowest address first, then the trailer.
+pub fn gen_stack_fill(rng: &mut Rng, tag: u8, has_pkt: bool) -> Prog {
+    let mut b = B::new(tag);
+    let mut vals = [0i32; 64];
+    for (i, v) in vals.iter_mut().enumerate() {
+        *v = rng.next_u64() as i32 | 1;
+        b.i(MOV64_IMM, 2, 0, 0, *v);
+        b.i(0x7b, 10, 2, -512 + 8 * i as i16, 0); // stxdw [r10-512+8i], r2
+    }
+    // the middle part: nothing here may touch the 512 bytes
+    b.i(MOV64_IMM, 6, 0, 0, rng.next_u64() as i32);
+    b.i(MOV64_IMM, 7, 0, 0, (rng.next_u64() as i32) | 1);
+    let with_helper = rng.chance(2, 3);
+    let mut min_pkt = 0;
+    for _ in 0..rng.range(2, 6) {
+        match rng.below(6) {
+            0 => b.i(0x37, 6, 0, 0, rng.range(1, 1000) as i32), // div64 imm
+            1 => b.i(0x97, 6, 0, 0, rng.range(1, 1000) as i32), // mod64 imm
+            2 => b.i(0x3f, 6, 7, 0, 0),                         // div64 r6, r7 (r7 is odd: never 0)
+            3 => b.i(0xdc, 6, 0, 0, *rng.pick(&[16, 32, 64])),  // be
+            4 => b.i(0x34, 6, 0, 0, rng.range(1, 1000) as i32), // div32 imm
+            _ => {
+                if has_pkt {
+                    b.i(LD_ABS_B, 0, 0, 0, 0);
+                    b.i(0x0f, 6, 0, 0, 0); // add64 r6, r0
+                    min_pkt = 1;
+                } else {
+                    b.i(0x9f, 6, 7, 0, 0); // mod64 r6, r7
+                }
+            }
+        }
+    }
+    if with_helper {
+        b.i(MOV64_REG, 1, 10, 0, 0);
+        b.i(ADD64_IMM, 1, 0, 0, -512 + 8 * rng.below(64) as i32);
+        b.i(MOV64_IMM, 2, 0, 0, tag as i32);
+        b.i(MOV64_IMM, 3, 0, 0, 3);
+        b.i(MOV64_IMM, 4, 0, 0, 4);
+        b.i(MOV64_IMM, 5, 0, 0, 5);
+        b.i(CALL, 0, 0, 0, KEY_PROBE_STACK as i32);
+    }
+    b.i(MOV64_IMM, 0, 0, 0, 0);
+    for i in 0..64 {
+        b.i(LDXDW, 2, 10, -512 + 8 * i as i16, 0);
+        b.i(0x27, 0, 0, 0, 31); // mul64 r0, 31
+        b.i(0x0f, 0, 2, 0, 0); // add64 r0, r2
+    }
+    b.trailer(tag);
+    let mut h = 0u64;
+    for v in vals {
+        h = h.wrapping_mul(31).wrapping_add(v as i64 as u64);
+    }
+    let mut p = mk(b.v, tag, Class::StackFill);
+    p.p0 = ((h << 8) | tag as u64) as i64;
+    p.min_pkt = min_pkt;
     p
 }
 
@@ -958,7 +1022,7 @@ pub fn gen_probe_pkt_abs(tag: u8, idx: usize, w: u8) -> Prog {
     b.trailer(tag);
     let mut p = mk(b.v, tag, Class::ProbePktAbs);
     p.p0 = idx as i64;
-    p.min_pkt = idx + 8;
+    p.min_pkt = idx + w as usize; // the load's last byte may be the packet's last byte
     p.w = w;
     p
 }
@@ -974,7 +1038,7 @@ pub fn gen_probe_pkt_ind(tag: u8, idx: usize, regval: i64, w: u8, src: u8) -> Pr
     let mut p = mk(b.v, tag, Class::ProbePktInd);
     p.p0 = idx as i64;
     p.p1 = regval;
-    p.min_pkt = (idx as i64 + regval) as usize + 8;
+    p.min_pkt = (idx as i64 + regval) as usize + w as usize;
     p.w = w;
     p
 }
